@@ -159,6 +159,12 @@ def laws(rng):
                                                         'observed': got, 'params': {'pm': pm, 'pm2': pm2, 'raise_at_mod7': bad_r}}))
         law('filter_concat', lambda: ds.concatenate(ds_b).filter(p1), lambda: ds.filter(p1).concatenate(ds_b.filter(p1)), ('iter',),
             {'pm': pm, 'raise_at_mod7': bad_r})
+        # items() and dropping the keys again (Lean: C16_items_map_snd); the first components are keys(), in order
+        if 'ok' in outcome(lambda: list(ds.keys())):
+            law('items_map_snd', lambda: ds.items().map(lambda kv: kv[1]), lambda: ds, ('iter', 'len', 'gets'))
+            ks_it, ks_tab = run_stream(lambda: ds.items().map(lambda kv: kv[0])), outcome(lambda: list(ds.keys()))
+            if ks_it.get('vals', ks_it) != ks_tab.get('ok') and canon(list(ds.items().map(lambda kv: kv[0]))) != canon(list(ds.keys())):
+                out.append(('items_map_fst_is_keys', {'pipeline': p, 'items_first': ks_it, 'keys': ks_tab}))
         r = rng.randint(1, 3)
         law('tile_eq_concat', lambda: ds.tile(r), lambda: lazy_dataset.concatenate(*([ds] * r)), ('iter', 'len', 'gets'), {'reps': r})
         # tile(r, shuffle=True) is the concatenation of r independently shuffled views (same draws from the global generator)
@@ -214,9 +220,9 @@ def run(rep):
             seen.add(name)
             rep.violation({'property': 'C16', 'kind': 'oracle-failure', 'clause': name, 'detail': det})
     rep.coverage.update({
-        'evaluations': n * 16, 'programs': n, 'disagreements_checked': n * 16, 'disagreements_found': len(fails),
+        'evaluations': n * 18, 'programs': n, 'disagreements_checked': n * 18, 'disagreements_found': len(fails),
         'distinct_nontrivial': len(distinct),
-        'rule': '16 laws instantiated on random error-free indexable base pipelines (sources, slices, sorts, one-time shuffles, caches, copies) with distinct examples and random parameters; '
+        'rule': '18 laws instantiated on random error-free indexable base pipelines (sources, slices, sorts, one-time shuffles, caches, copies) with distinct examples and random parameters; '
                 'both sides are built on the implementation and compared on iteration, len, keys, items(), ds[key] for every key and ds[i] for all i in [-n-1, n+1); distinct non-trivial = distinct base pipeline',
         'samples': [{'law': 'map_slice', 'lhs': 'ds.map(f)[s1]', 'rhs': 'ds[s1].map(f)'}, {'law': 'concat_split_id', 'lhs': 'concatenate(*ds.split(k))', 'rhs': 'ds'}],
         'distribution': {'base_stage_kinds': dist}, 'exhaustive': False})
